@@ -121,7 +121,13 @@ fn matcher_case(ctx: &mut Ctx, idx: u64) {
         };
         // ---- illegal call (token not in mask / out of range) on a CLONE first: it must fail and fail for good
         if rng.chance(1, 7) {
-            let bad = if rng.chance(1, 2) { v.n() as u32 + rng.below(50) as u32 } else { (0..40).map(|_| rng.below(v.n()) as u32).find(|&t| !mask.is_allowed(t)).unwrap_or(u32::MAX) };
+            // (under canonical forcing the mask may be narrower than the accepted set: a token outside the mask
+            // is illegal only if validate_tokens refuses it too)
+            let bad = if rng.chance(1, 2) {
+                v.n() as u32 + rng.below(50) as u32
+            } else {
+                (0..40).map(|_| rng.below(v.n()) as u32).find(|&t| !mask.is_allowed(t) && m.deep_clone().validate_tokens(&[t]).map(|k| k == 0).unwrap_or(true)).unwrap_or(u32::MAX)
+            };
             if bad != u32::MAX {
                 let mut c = m.deep_clone();
                 let res = c.consume_token(bad);
